@@ -632,3 +632,21 @@ pub fn h_kfm(ks: &[Kern], base: u64) -> u64 {
 	let n = ks.iter().filter(|k| k.features.is_nrd()).count() as u64;
 	ks.iter().map(|k| k.features.weight(base)).sum::<u64>() + n
 }
+// ---- phase 6: integer literal patterns, a pattern on a one-field struct, `ok_or_else`
+pub fn t_litpat(a: u64, b: u64) -> u64 {
+	match a % 7 {
+		0 => b,
+		1 => b + 1,
+		5 => a,
+		_ => a ^ b,
+	}
+}
+pub fn t_ntpat(a: u64) -> Result<u64, String> {
+	let v = Nt(a % 5);
+	let r = match v {
+		Nt(1) => Some(10),
+		Nt(3) => None,
+		_ => Some(a),
+	};
+	r.ok_or_else(|| "none".to_owned())
+}
